@@ -12,7 +12,12 @@ One function per grammar rule, with pigeon's semantics:
 * `UintLiteral` is the ordered choice Hex / Octal / Decimal (`P.Peg.uintLitFull`);
 * `ast.Operand(idx.(uint))` is a `uint → int` conversion: it wraps (`wrapInt`), so
   `[18446744073709551615]` is `Operand(-1)` (finding F8);
-* the recursion through parentheses uses fuel = input length + 1 (every level consumes a `(`).
+* the recursion through parentheses uses fuel = input length + 1 (every level consumes a `(`);
+* `parse.Reader` runs the generated parser with `Memoize(true)`: a rule result is cached per
+  (rule, offset) together with the end position; an action error of the first evaluation is
+  already in the error list, so accept/reject and the tree are the same as without the cache
+  (the model, like the un-memoized parser, re-evaluates; it is exponential in the parenthesis
+  depth, which only matters for running time).
 
 Input that is not valid UTF-8, and any non-ASCII character, is rejected by the real parser
 (no character class of the grammar contains a non-ASCII rune and `Chain` must reach EOF; an
